@@ -36,6 +36,7 @@ type verifSide struct {
 	fkCols    int // composite key: 0 (b,c)->(id,id2), 1 child columns swapped, 2 parent columns swapped
 	chk       bool
 	chkExpr   string
+	chkAttr   bool // the dialect's check attribute (MySQL NOT ENFORCED, PostgreSQL NO INHERIT)
 	strict    bool
 }
 
@@ -125,6 +126,7 @@ Rest:
 	if s.chk {
 		s.chkExpr = verifString(tag+"_chk_expr", 1)
 		verifAssume(s.chkExpr[0] >= 'a' && s.chkExpr[0] <= 'z')
+		s.chkAttr = verifBool(tag + "_chk_attr")
 	}
 	return s
 }
@@ -197,7 +199,11 @@ func (s verifSide) table(sch *schema.Schema, ref *schema.Table, perm bool) *sche
 		t.AddForeignKeys(schema.NewForeignKey("f").AddColumns(cols...).SetRefTable(ref).AddRefColumns(refs...).SetOnDelete(verifActions[s.fkDelete]))
 	}
 	if s.chk {
-		t.AddChecks(schema.NewCheck().SetName("k").SetExpr(s.chkExpr))
+		ck := schema.NewCheck().SetName("k").SetExpr(s.chkExpr)
+		if s.chkAttr {
+			ck.AddAttrs(&NoInherit{})
+		}
+		t.AddChecks(ck)
 	}
 	return t
 }
@@ -295,7 +301,7 @@ func verifExpected(f, t verifSide) []verifWant {
 		w = append(w, verifWant{"drop-check", 0})
 	case !f.chk && t.chk:
 		w = append(w, verifWant{"add-check", 0})
-	case f.chk && f.chkExpr != t.chkExpr:
+	case f.chk && (f.chkExpr != t.chkExpr || f.chkAttr != t.chkAttr):
 		w = append(w, verifWant{"modify-check", 0})
 	}
 	switch {
